@@ -1,6 +1,8 @@
 package b2f
 
 import (
+	"bytes"
+	"crypto/md5"
 	"encoding/json"
 	"flag"
 	"fmt"
@@ -298,5 +300,193 @@ func MainC05(args []string) int {
 		}
 	}
 	fmt.Printf("{\"traces\":%d,\"nontrivial\":%d,\"moved\":%d}\n", len(scs), nontrivial, moved)
+	return 0
+}
+
+// ---------------------------------------------------------------------------------------------
+// C16: secure login. The peer is master and issues ;PQ; the library's ;FW / ;PR lines are projected into one
+// Login event per handshake, with the MD5 digests computed by the harness from challenge, password and the salt
+// exported from the specification (spec/secure/salt.json).
+
+func digestOf(challenge, password string, salt []byte) []int {
+	sum := md5.Sum(append([]byte(challenge+password), salt...))
+	out := make([]int, 16)
+	for i, b := range sum {
+		out[i] = int(b)
+	}
+	return out
+}
+
+var pwAlphabet = []string{"FOOBAR", "s3cret!", "Sup3rS3cret ", " leading", "with space inside", "pässwörd", "UPPER", "upper", "a|b|c", "12345678", "x", "tab\there", "ends\\", "%s%d%n", "ÆØÅ\xff\xfe"}
+
+func MainC16(args []string) int {
+	fs := flag.NewFlagSet("b2f-c16", flag.ExitOnError)
+	out := fs.String("out", "", "trace ndjson")
+	saltPath := fs.String("salt", "", "salt.json from the specification")
+	n := fs.Int("n", 2000, "handshakes")
+	workers := fs.Int("workers", 8, "parallel sessions")
+	fs.Parse(args)
+	var saltInts []int
+	b, err := os.ReadFile(*saltPath)
+	if err == nil {
+		err = json.Unmarshal(b, &saltInts)
+	}
+	if err != nil {
+		fmt.Fprintln(os.Stderr, "salt:", err)
+		return 2
+	}
+	salt := make([]byte, len(saltInts))
+	for i, v := range saltInts {
+		salt[i] = byte(v)
+	}
+	rng := rand.New(rand.NewSource(rec.Seed()))
+	type item struct {
+		ps *PeerScenario
+	}
+	var scs []*PeerScenario
+	mk := func(challenge, password string, aux []string, auxpw map[string]string, cb string) {
+		ps := &PeerScenario{ID: len(scs) + 1, LibPol: map[string]string{}, Seed: rng.Int63(), Seg: []string{"all", "one", "rand"}[rng.Intn(3)],
+			Sched: "free", MyCall: "LA1AAA", Locator: "JO29PJ", Aux: aux,
+			Secure: &SecureCfg{Password: password, AuxPw: auxpw, Callback: cb},
+			Script: &PeerScript{Master: true, Sid: sidVariants[rng.Intn(len(sidVariants))], PQ: challenge, Answers: map[string]string{},
+				Prompt: "CMS via LA2BBB >"}}
+		scs = append(scs, ps)
+	}
+	// the repository's published vector
+	mk("23753528", "FOOBAR", nil, nil, "ok")
+	auxCalls := []string{"LA9AUX", "LA8TAC-1", "N0CALL"}
+	for i := 0; i < *n; i++ {
+		var challenge string
+		switch rng.Intn(6) {
+		case 0:
+			challenge = fmt.Sprintf("%d", rng.Intn(100))
+		case 1:
+			challenge = "ABC-not digits " + fmt.Sprint(rng.Intn(1000))
+		case 2:
+			challenge = fmt.Sprintf("%040d", rng.Int63())
+		default:
+			challenge = fmt.Sprintf("%08d", rng.Intn(100000000))
+		}
+		pw := pwAlphabet[rng.Intn(len(pwAlphabet))]
+		if rng.Intn(2) == 0 {
+			bb := make([]byte, 1+rng.Intn(20))
+			for j := range bb {
+				bb[j] = byte(32 + rng.Intn(95))
+			}
+			pw = string(bb)
+		}
+		var aux []string
+		auxpw := map[string]string{}
+		for _, a := range auxCalls[:rng.Intn(4)] {
+			aux = append(aux, a)
+			if rng.Intn(2) == 0 {
+				auxpw[a] = pwAlphabet[rng.Intn(len(pwAlphabet))] + fmt.Sprint(rng.Intn(10))
+			} else {
+				auxpw[a] = ""
+			}
+		}
+		cb := "ok"
+		switch rng.Intn(12) {
+		case 0:
+			cb = "none"
+		case 1:
+			cb = "error"
+		}
+		mk(challenge, pw, aux, auxpw, cb)
+	}
+	results := make([]rec.Event, len(scs))
+	var wg sync.WaitGroup
+	ch := make(chan int)
+	for w := 0; w < *workers; w++ {
+		wg.Add(1)
+		go func() {
+			defer wg.Done()
+			for i := range ch {
+				ps := scs[i]
+				evs, res := RunPeerScenario(ps)
+				sec := ps.Secure
+				ev := rec.Event{"op": "Login", "cb": sec.Callback, "challenge": ps.Script.PQ, "mycall": "LA1AAA", "res": res.Ret["A"],
+					"digest": digestOf(ps.Script.PQ, sec.Password, salt), "pr": "", "prcount": 0, "prBeforeCmd": true, "fwfirst": "",
+					"panic": res.Panic != "" || res.TimedOut, "pwlen": len(sec.Password)}
+				aux := []map[string]interface{}{}
+				sawCmd := false
+				for _, e := range evs {
+					if e["op"] != "Unit" || e["s"] != "A" {
+						continue
+					}
+					switch e["kind"] {
+					case "Pr":
+						ev["prcount"] = ev["prcount"].(int) + 1
+						ev["pr"] = e["response"]
+						if sawCmd {
+							ev["prBeforeCmd"] = false
+						}
+					case "Fw":
+						addrs := e["addrs"].([]string)
+						hashes := e["hashes"].([]string)
+						if len(addrs) > 0 {
+							ev["fwfirst"] = addrs[0]
+							if hashes[0] != "" {
+								ev["fwfirst"] = addrs[0] + "|" + hashes[0]
+							}
+						}
+						for k := 1; k < len(addrs); k++ {
+							tok := addrs[k]
+							if hashes[k] != "" {
+								tok += "|" + hashes[k]
+							}
+							a := map[string]interface{}{"token": tok, "addr": "?", "haspw": false, "digest": digestOf("", "", salt)}
+							if k-1 < len(ps.Aux) {
+								want := fbb.AddressFromString(ps.Aux[k-1]).Addr
+								pw := sec.AuxPw[want]
+								a["addr"], a["haspw"], a["digest"] = want, pw != "", digestOf(ps.Script.PQ, pw, salt)
+							}
+							aux = append(aux, a)
+						}
+						if len(addrs)-1 != len(ps.Aux) {
+							aux = append(aux, map[string]interface{}{"token": "<count>", "addr": "?", "haspw": false, "digest": digestOf("", "", salt)})
+						}
+					case "Prop", "FF", "FQ", "EndBlock":
+						sawCmd = true
+					case "Bad":
+						ev["panic"] = true
+					}
+				}
+				ev["aux"] = aux
+				// the password itself must not be on the wire (meaningful for distinctive passwords only)
+				onwire := false
+				for pwk, pw := range map[string]string{"main": sec.Password} {
+					_ = pwk
+					if len(pw) >= 5 && bytes.Contains(res.Bytes["A"], []byte(pw)) {
+						onwire = true
+					}
+				}
+				for _, pw := range sec.AuxPw {
+					if len(pw) >= 5 && bytes.Contains(res.Bytes["A"], []byte(pw)) {
+						onwire = true
+					}
+				}
+				ev["pwonwire"] = onwire
+				results[i] = ev
+			}
+		}()
+	}
+	for i := range scs {
+		ch <- i
+	}
+	close(ch)
+	wg.Wait()
+	w, err := rec.NewWriter(*out)
+	if err != nil {
+		fmt.Fprintln(os.Stderr, err)
+		return 2
+	}
+	defer w.Close()
+	distinct := map[string]bool{}
+	for i, ev := range results {
+		w.Write(map[string]interface{}{"scen": i + 1}, []rec.Event{ev})
+		distinct[fmt.Sprint(ev["challenge"], "|", scs[i].Secure.Password, "|", scs[i].Aux, "|", ev["cb"])] = true
+	}
+	fmt.Printf("{\"traces\":%d,\"distinct\":%d}\n", len(results), len(distinct))
 	return 0
 }
